@@ -19,7 +19,9 @@ RULE = (
     "updates, a raising event callback. After every op: nothing may escape the dispatcher/pump/transport.send; a "
     "controller call may raise to its caller (then nothing emitted/changed); a line that is malformed or invalid "
     "for the version (definite reference verdict) must leave the full snapshot (tree, hold queues, desired maps, "
-    "reboot flags, OTA stores, callback log, transport log, job queue, subscriptions) untouched. Thorough adds "
+    "reboot flags, OTA stores, callback log, transport log, job queue, subscriptions) untouched. Per version and flavour "
+    "one further history feeds every violating boundary-corpus payload of every constrained payload rule to a gateway "
+    "that knows the sender; in the serial/TCP flavour lines arrive through the real reader path in reads of <= 120 bytes. Thorough adds "
     "replay into a gateway with the REAL poll thread + liveness probe, and an atheris campaign. Non-trivial = "
     "a near-valid/wild/raw line processed while >= 1 node is known; distinct by hash of the history."
 )
@@ -174,6 +176,7 @@ def minimise(v):
 
 
 GEN = dict(
+    respell=False,  # the MQTT flavour carries the header in topic levels; other spellings are C02's and C05's business
     max_ops=40, wire_carriable=False, allow_unpinned=True, wild_vt=True, flavours=FLAVOURS,
     op_weights=dict(valid=45, wild=18, near=10, raw=8, set=12, fw=4, cb_raise=2, metric=1, clock=0, race=3),
 )
@@ -258,6 +261,43 @@ def _live_shard(args):
     return stats
 
 
+# -- every payload rule's violating corpus against a gateway that knows the sender -----------------------------
+
+
+def corpus_case(version, flavour):
+    """One history per version: a known node with children, then - for every defined (command, sub-type) whose
+    payload is constrained - every corpus payload the reference calls invalid. None of them may have any effect."""
+    from vf.checks.c03 import corpus_for
+    from vf.ref import tables as T
+
+    ops = [{"op": "line", "text": t} for t in ("1;255;0;0;17;2.0", "1;0;0;0;3;dimmer", "1;1;0;0;6;temp", "1;0;1;0;2;1", "1;1;1;0;0;20.5")]
+    for cmd in T.COMMANDS:
+        for sub in range(T.MAX_SUB[version][cmd] + 1):
+            rule = T.payload_rule(version, cmd, sub)
+            if rule[0] == "any":
+                continue
+            child = 255 if cmd in (T.INTERNAL, T.STREAM) or rule[0] == "version" else sub % 2
+            for payload in corpus_for(rule):
+                fields = (1, child, cmd, 0, sub, payload)
+                if codec.carriable(payload) and V.validate(version, fields) is False:
+                    ops.append({"op": "line", "text": codec.encode(fields)[:-1]})
+    return {"version": version, "flavour": flavour, "ops": ops, "corpus": True}
+
+
+def _corpus_worker(args):
+    version, flavour = args
+    common.setup_path()
+    stats = common.Stats()
+    case = corpus_case(version, flavour)
+    try:
+        run_ops(case, stats)
+    except Violation as v:
+        vv = minimise(v)
+        stats.violation(vv.clause, vv.case, vv.detail)
+    stats.label("corpus-lines", len(case["ops"]))
+    return stats
+
+
 def regression(run):
     for path in sorted(glob.glob(os.path.join(common.REPLAY_DIR, f"{PROP}-*.json"))):
         body = json.load(open(path, encoding="utf-8"))
@@ -280,6 +320,10 @@ def main(tier):
     shards, n = (16, 160) if tier == "quick" else (16, 3000)
     jobs = [(common.shard_seed(common.seed(), i), n) for i in range(shards)]
     for stats in common.pool_map(_shard, jobs):
+        run.stats.merge(stats)
+    from vf.ref import tables as T
+
+    for stats in common.pool_map(_corpus_worker, [(v, f) for v in T.VERSIONS for f in ("sync", "async", "mqtt")]):
         run.stats.merge(stats)
     if tier == "thorough":
         jobs = [(common.shard_seed(common.seed(), 100 + i), 40) for i in range(8)]
